@@ -295,3 +295,42 @@ func replay(r *vk.Run, scenarios []Scenario) {
 // Generic returns the engine-level violations of an execution (deadlock, livelock, panic) —
 // scenario checks append it to their own.
 func Generic(e *vs.Exec) []Viol { return generic(e) }
+
+// Conformance runs the engine-E3 loopback replay binary of the property (harness/<id>/real, path in
+// VERIF_REAL_BIN): the scenarios the model explored, played against the unmodified driver on real
+// sockets. It validates the network model; it never decides the property — a divergence is
+// recorded in the evidence (model_divergences), not raised as a violation.
+func Conformance(r *vk.Run) {
+	bin := os.Getenv("VERIF_REAL_BIN")
+	if bin == "" {
+		return
+	}
+	cmd := exec.Command(bin)
+	var out bytes.Buffer
+	cmd.Stdout = &out
+	done := make(chan error, 1)
+	go func() { done <- cmd.Run() }()
+	select {
+	case err := <-done:
+		if err != nil {
+			r.Set("loopback_conformance", "replay binary failed: "+err.Error())
+			return
+		}
+	case <-time.After(4 * time.Minute):
+		cmd.Process.Kill()
+		r.Set("loopback_conformance", "timed out (not judged)")
+		return
+	}
+	var res struct {
+		Replayed, Agreed, Skipped int
+		Divergences               []map[string]string
+	}
+	if err := json.Unmarshal(out.Bytes(), &res); err != nil {
+		r.Set("loopback_conformance", "unreadable output")
+		return
+	}
+	r.Set("traces_validated_against_impl", res.Agreed)
+	r.Set("loopback_replays", res.Replayed)
+	r.Set("loopback_skipped_not_applicable", res.Skipped)
+	r.Set("model_divergences", res.Divergences)
+}
